@@ -87,3 +87,109 @@ def build_subcommand_name_exists(fx, res, rule):
         res.check(m2 is not None and m2.group(1) == recv and cl_ok, rule, "lemma|help-subcommand-name-is-canonical", c.where(), "_build_subcommand(find_subcommand(x).get_name()).unwrap() on the same command",
                   "parse_help_subcommand unwraps _build_subcommand(%s): the name does not come from find_subcommand(..).get_name() on the same command (an alias or an inferred spelling is not a subcommand NAME, the lookup returns None and `help <that>` panics)" % name[:100])
     res.floor(rule, "unwrap of _build_subcommand in parse_help_subcommand", n, 1)
+
+
+def flag_subcommand_lookup_canonical(fx, res, rule):
+    """Parser::parse resolves what the flag-subcommand lookups return with `find_subcommand(name).expect(INTERNAL_ERROR_MSG)`
+    (audit: "the name came from a lookup on the same command").  find_subcommand knows subcommand NAMES and their (positional)
+    aliases — not long-flag or short-flag aliases.  So possible_long_flag_subcommand / find_long_subcmd / find_short_subcmd must answer with
+    the subcommand's get_name(), never with the matched flag or flag-alias text: every closure in their trees that returns an
+    `Option<&str>` builds it from `get_name(..)` (or from nested closures that do), not from an element-returning iterator call
+    (find / next / last / nth over the aliases)."""
+    ELEM = r"Iterator>?::(find|next|last|nth|max|min|max_by|min_by|max_by_key|min_by_key|reduce)$"
+    n = 0
+    for q in ("clap_builder::parser::parser::Parser::possible_long_flag_subcommand", "clap_builder::builder::command::Command::find_long_subcmd",
+              "clap_builder::builder::command::Command::find_short_subcmd"):
+        b = fx.body(q)
+        for t in tree(b):
+            if t is b:
+                continue
+            rty = t.local_ty(0).replace("'_ ", "")
+            if rty == "&str":
+                # the `.map(|sc| sc.get_name())` form: the closure's value is the answer itself
+                n += 1
+                e = strip_transparent(expr(t, 0))
+                res.check(re.match(r"^(as_str\()?get_name\(", e) is not None, rule, "lemma|flag-subcommand-lookup-answers-name|" + q.rsplit("::", 1)[1], t.where(), "answers %s" % e[:60],
+                          "%s answers %s, not the subcommand's get_name(): Parser::parse resolves the answer with find_subcommand(..).expect(..), which does not know flag or flag-alias spellings" % (q.rsplit("::", 1)[1], e[:100]))
+                continue
+            if not re.match(r"^(std::option::|core::option::)?Option<&str>$", rty):
+                continue
+            for (bb, idx, lhs, rhs) in t.def_sites(0):
+                if bb not in t.reachable(0) or t.blocks[bb]["cleanup"]:
+                    continue
+                if isinstance(rhs, dict):
+                    if rhs["k"] == "agg" and rhs.get("ak") == "adt" and str(rhs.get("variant")) in ("Some", "1") and rhs.get("ops"):
+                        n += 1
+                        e = expr(t, rhs["ops"][0])
+                        res.check(re.match(r"^(as_str\()?get_name\(", e) is not None, rule, "lemma|flag-subcommand-lookup-answers-name|" + q.rsplit("::", 1)[1], t.where(),
+                                  "answers Some(%s)" % e[:60],
+                                  "%s answers Some(%s): Parser::parse resolves the answer with find_subcommand(..).expect(..), which does not know flag or flag-alias spellings — a flag subcommand reached through an alias (or an inferred prefix of one) panics" % (q.rsplit("::", 1)[1], e[:100]))
+                else:
+                    cq = rhs.callee_q or ""
+                    if re.search(ELEM, cq):
+                        n += 1
+                        res.violation(rule, "lemma|flag-subcommand-lookup-answers-name|" + q.rsplit("::", 1)[1], rhs.where(),
+                                      "%s answers with the element %s(..) found (an alias / flag text), not with the subcommand's get_name(): Parser::parse resolves the answer with find_subcommand(..).expect(..), which does not know flag-alias spellings — `--<alias>` panics" % (q.rsplit("::", 1)[1], cq.rsplit("::", 1)[1]))
+    res.floor(rule, "Option<&str> answers of the flag-subcommand lookups", n, 4)
+
+
+def osstr_find_complete(fx, res, rule):
+    """OsStrExt::find(needle) scans EVERY start position 0..=len-needle.len(): `contains`, `split_once` and the `Split` iterator
+    (value-delimiter splitting, `--long=value`) are built on it.  The scan may be skipped only when the haystack is strictly
+    shorter than the needle — a haystack that IS the needle (`,` for delimiter `,`; the tail after the last delimiter) must be
+    found.  Decided from the comparison facts that hold where the scan starts and from the range it walks."""
+    fd = fx.body("<std::ffi::os_str::OsStr as clap_lex::ext::OsStrExt>::find")
+    H_, N_ = r"len\((as_encoded_bytes\()?(self|bytes)\)?\)", r"len\((as_bytes\()?needle\)?\)"
+    scans = [c for c in fd.calls_to(r"Iterator>?::find$")] or [c for c in fd.calls_to(r"Iterator>?::next$") if re.match(r"^into_iter\((new|Range::Range)\(", expr(fd, c.args[0]))]
+    if not scans:
+        # another search form (delegation to str::find / memchr ...): this lemma has nothing to say; R13.3 find-first decides the form
+        res.note("%s osstr_find_complete: OsStrExt::find has no range scan (other form) — not evaluated" % rule)
+        return
+    for c in scans[:1]:
+        strict = [f for f in cmp_facts(fd, c.bb) if (f[0] == "Gt" and re.fullmatch(H_, f[1]) and re.fullmatch(N_, f[2])) or (f[0] == "Lt" and re.fullmatch(N_, f[1]) and re.fullmatch(H_, f[2]))]
+        res.check(not strict, rule, "lemma|find-scans-when-lengths-equal", c.where(), "the scan runs whenever len >= needle.len()",
+                  "OsStrExt::find reaches its scan only when %s: a haystack exactly as long as the needle is never searched, so `x.find(x)` is None — a value that is just the delimiter (or ends in two) is not split, `contains` misses it" % (strict[:1],))
+        rng = re.sub(r"^into_iter\((.*)\)$", r"\1", expr(fd, c.args[0]))
+        m = re.match(r"^(new|Range::Range)\(0,(.*)\)$", rng)
+        if m:
+            incl = m.group(1) == "new"
+            end = m.group(2)
+            ok = (incl and not re.search(r"Sub\(.*,1\)$|Sub\(Sub\(", end)) or ((not incl) and re.search(r"Add\(.*,1\)$", end) is not None)
+            res.check(ok, rule, "lemma|find-range-reaches-last-start", c.where(), "range %s" % rng[:80],
+                      "OsStrExt::find walks %s: the last start position len-needle.len() is not visited (a needle at the very end is missed)" % rng[:120])
+
+
+def full_build_only_on_clones(fx, res, rule):
+    """History independence: the only build steps the library runs on the USER's Command (the value that is reused for the
+    next parse / render) are the per-level, idempotent `_build_self` and `_build_subcommand`.  The whole-tree passes
+    (Command::build, _build_recursive, _build_bin_names_internal) name and expand every descendant relative to the receiver and
+    mark the result final — run on a subcommand or on the reused value from inside parsing / suggestion / rendering code they
+    leave state behind that a fresh definition does not have.  Inside the library they may run only on a local clone
+    (flattened help) or from the build passes themselves; `debug_assert` is the documented public exception (consumes self)."""
+    WHOLE = r"Command::(build|_build_recursive|_build_bin_names_internal)$"
+    n = 0
+    for b in fx.bodies(r"^clap_builder::"):
+        top = re.sub(r"(::\{closure#\d+\})+$", "", b.q)
+        for c in b.calls_to(WHOLE):
+            n += 1
+            recv = expr(b, c.args[0])
+            inside_build = re.search(r"Command::(build|_build_recursive|_build_bin_names_internal|debug_assert)$", top) is not None
+            on_clone = re.match(r"^clone\(", recv) is not None
+            res.check(inside_build or on_clone, rule, "lemma|whole-tree-build-only-on-clone|" + top.rsplit("::", 1)[1], c.where(),
+                      "%s(%s)" % (c.callee_q.rsplit("::", 1)[1], recv[:50]),
+                      "%s runs %s on %s — not a local clone: the whole-tree build names/expands the receiver's descendants as if it were the root and marks them built, on the Command the caller keeps using; a later parse or help render of the reused definition differs from a fresh one" % (top, c.callee_q.rsplit("::", 1)[1], recv[:80]))
+    res.floor(rule, "whole-tree build calls in clap_builder", n, 7)
+
+
+def help_subtree_guard(fx, res, rule):
+    """_propagate_global_args keeps global arguments out of the AUTO-GENERATED `help` subcommand (whose words are subcommand
+    names, never options): the skip is keyed on the subcommand being named "help" and on is_disable_help_subcommand_set — the
+    setting that says whether that subcommand is the generated one.  Any other predicate in that guard (disable_help_flag ...)
+    puts options into the help subtree that the parser rejects there."""
+    b = fx.body("clap_builder::builder::command::Command::_propagate_global_args")
+    preds = sorted(set(c.callee_q.rsplit("::", 1)[1] for t in tree(b) for c in t.calls_to(r"Command::is_\w+_set$") if re.match(r"^self\b", expr(t, c.args[0]))))
+    helpcmp = [c for t in tree(b) for c in t.calls_to(r"PartialEq.*::eq$") if any(const_of(t, a) == "help" or expr(t, a) == "'help'" for a in c.args)]
+    res.floor(rule, "`== \"help\"` test in _propagate_global_args", len(helpcmp), 1)
+    res.check(preds == ["is_disable_help_subcommand_set"], rule, "lemma|generated-help-subtree-keyed-on-disable_help_subcommand", b.where(),
+              "the help-subtree skip reads is_disable_help_subcommand_set",
+              "_propagate_global_args decides whether `help` is the generated subcommand from %s (expected is_disable_help_subcommand_set only): global options are propagated into (or withheld from) the help subtree under the wrong setting" % preds)
